@@ -608,7 +608,8 @@ PROPS = ["SuccessMeansAuthenticated", "ProbeNeverAuthenticates", "GrantIsAnnounc
          "NoCheckAfterDeath", "UserPinned", "CapExact"]
 C14_CLAUSES = {"P_GrantNeedsApproval", "P_SuccessMeansAuthenticated", "P_ProbeNeverAuthenticates", "P_GrantIsAnnounced"}
 C16_CLAUSES = {"P_OneUser", "P_SwitchEnds", "P_CapRespected", "P_CapExact", "P_NoCheckAfterDeath"}
-JVM = {"JAVA_TOOL_OPTIONS": "-XX:TieredStopAtLevel=1"}     # short runs: do not wait for the optimising compiler
+# short runs on a shared machine: no optimising compiler, small heap, few GC / compiler threads (JVM start-up dominates)
+JVM = {"JAVA_TOOL_OPTIONS": "-XX:TieredStopAtLevel=1 -Xmx2g -XX:ParallelGCThreads=2 -XX:CICompilerCount=1"}
 ENC = ["k", "user", "service", "method", "cb", "sig", "mic", "change", "mechs", "mech_ok", "tok"]
 
 
@@ -645,6 +646,15 @@ def model_check_and_generate(c, k, name):
     if len(msgs) != 1:
         raise Machinery("message alphabet not printed")
     return wits, [dict(zip(ENC, q)) for q in msgs[0][1]]
+
+
+def primary(msgs):
+    """the user for whom the alphabet has every request variant (ServerAuth!Primary)"""
+    n = {}
+    for m in msgs:
+        if m["user"]:
+            n[m["user"]] = n.get(m["user"], 0) + 1
+    return max(sorted(n), key=lambda u: n[u])
 
 
 def step_method(req, mode):
@@ -810,3 +820,13 @@ def random_job(rnd, length, p, tag):
     key = "%s|%s|%s|%s" % (tag, cfg, names["pk"], ";".join(",".join(str(clean(q)[f]) for f in ENC) + "/" + str(q.get("pk", ""))
                                                           for q in seq))
     return {"bursts": bursts, "opts": opts, "names": names, "key": key + "|" + ",".join(str(len(b)) for b in bursts)}
+
+
+def replay(c, rep, clauses):
+    """bin/check Cnn --replay file: run the recorded connection again and let the trace specification judge it"""
+    job = rep["job"]
+    other_sid = real_other_session_id()
+    traces = execute(c, [{"bursts": job["bursts"], "opts": job["opts"], "names": job.get("names"), "key": "replay"}],
+                     other_sid, "replayed")
+    validate(c, traces, clauses)
+    c.rule = "replay of one recorded connection"
